@@ -365,6 +365,9 @@ func step(c *vt.Ctx, v avfs.VFS, r *fsx.Runner, kind string, o fsx.Op, before fs
 	if out.Err == "PANIC" {
 		return out, before, nil // C07's business; the state may be inconsistent
 	}
+	if out.Err == "HANG" {
+		return out, before, mk("hang", "the call did not return ("+out.Note+"): the tree cannot be walked any more")
+	}
 	after := snapshot(v, kind, true)
 	if bad := internal(v); len(bad) > 0 {
 		return out, after, mk("internal", strings.Join(bad, "; "))
